@@ -55,6 +55,8 @@ def feasible(pc, timeout_ms=400):
         return True
     s = z3.Solver()
     s.set('timeout', timeout_ms)
+    s.set('smt.mbqi', False)
+    s.set('smt.auto_config', False)
     for _, f, _ in smt.relevant_axioms(pc):
         s.add(f)
     for f in pc:
@@ -145,6 +147,8 @@ class Run:
             return False
         s = z3.Solver()
         s.set('timeout', timeout_ms)
+        s.set('smt.mbqi', False)
+        s.set('smt.auto_config', False)
         forms = list(self.st.pc) + [z3.Not(f)]
         for _, ax, _ in smt.relevant_axioms(forms):
             s.add(ax)
@@ -160,6 +164,7 @@ class Run:
         ob = Obligation(name, self.fname, kind, list(self.st.pc) + list(extra_hyps), goal,
                         props=props if props is not None else self.cur_props, detail=detail, meta=meta)
         ob.path = list(self.path.taken)
+        ob.meta['branches'] = [str(z3.simplify(f))[:120] for f, k in zip(self.st.pc, self.st.pck) if k == 'B'][-12:]
         self.obligs.append(ob)
         return ob
 
